@@ -89,6 +89,8 @@ QJsonObject generate()
             o["null"] = true;
         if (k == 4 && chance(50))
             o["scoped"] = true;
+        if (k == 2 && chance(25))
+            o["again"] = true; // setFormatter with the formatter object created last (re-applied configuration, shared singleton)
         ops.append(o);
     }
     c["ops"] = ops;
@@ -124,6 +126,8 @@ std::string run(const QJsonObject &c)
     int rank[5] = { -1, -1, -1, -1, -1 };
     bool lowerAfterHigher = false, twoOfOneClass = false, clearedSomething = false;
     int step = 0;
+    QSharedPointer<RecFormatter> lastFmt;
+    bool sameFormatterAgain = false;
     for (const auto &ov : ops) {
         const QJsonObject o = ov.toObject();
         const QString op = o["op"].toString();
@@ -160,8 +164,15 @@ std::string run(const QJsonObject &c)
         } else if (op == "fmt") {
             if (isNull) {
                 p->setFormatter(FormatterPtr()); // documented callers never pass null; no effect
+            } else if (o["again"].toBool() && lastFmt) {
+                p->setFormatter(lastFmt);
+                mFmt.clear();
+                mFmt.push_back(lastFmt);
+                noteInsert(2, 1);
+                sameFormatterAgain = true;
             } else {
                 auto h = QSharedPointer<RecFormatter>::create(nextId++);
+                lastFmt = h;
                 ids[h.data()] = h->id;
                 p->setFormatter(h);
                 mFmt.clear();
@@ -258,6 +269,7 @@ std::string run(const QJsonObject &c)
         }
     }
     cls("target_simple", simple);
+    cls("same_formatter_object_set_again", sameFormatterAgain);
     cls("lower_class_after_higher", lowerAfterHigher);
     cls("two_of_one_class", twoOfOneClass);
     cls("cleared_nonempty_class", clearedSomething);
